@@ -1,3 +1,57 @@
+import PicoProofs.EndToEnd
 import PicoProofs.Tie
-import PicoModel.WellTyped
-/- C02: theorems are added as the proof modules land -/
+/-
+C02 — Unmarshal reads every valid protobuf encoding of a message to the same values.
+
+The decoder refinement T_dec: for EVERY byte string (so in particular every wire-equivalent
+re-encoding: any field order, packed / unpacked / mixed, non-minimal varints, split sub-messages,
+interleaved unknown fields and groups — no enumeration of rewrites is involved), every supported
+schema and every starting message of the right shape, the cursor machine of decoder.go +
+decoder_types.go + the generated Decode methods + the map codecs returns nil exactly when the
+record-at-a-time specification accepts, and then with the specification's value.
+The specification (`Spec.specDec`) spells out the protobuf rules; that it agrees with the
+reference implementation is checked on every run by the reference column of stream M.
+-/
+namespace Pico.Props
+open Pico Pico.Gen2
+
+theorem C02_unmarshal_is_spec (S : Schema) (hS : S.supported = true) (id : Nat) (data : Bytes) (m0 : Val)
+    (hm0 : shMsg S id m0 = true) :
+    ∃ d m, unmarshal S id data m0 = .ok (d, m) ∧
+      (d.err = none ↔ (Spec.specUnmarshal S id data m0).isSome) ∧
+      (d.err = none → Spec.specUnmarshal S id data m0 = some m) :=
+  unmarshal_refines_spec S hS id data m0 hm0
+
+/-- into a fresh message (the usual call), no hypothesis on anything but the schema -/
+theorem C02_unmarshal_fresh_is_spec (S : Schema) (hS : S.supported = true) (id : Nat) (data : Bytes) :
+    ∃ d m, unmarshal S id data (zeroMsg S id) = .ok (d, m) ∧
+      (d.err = none ↔ (Spec.specUnmarshal S id data (zeroMsg S id)).isSome) ∧
+      (d.err = none → Spec.specUnmarshal S id data (zeroMsg S id) = some m) :=
+  unmarshal_new_refines_spec S hS id data
+
+/-- into any well-typed message -/
+theorem C02_unmarshal_welltyped_is_spec (S : Schema) (hS : S.supported = true) (id : Nat) (data : Bytes) (m0 : Val)
+    (strict : Bool) (hm0 : wtMsg S strict id m0 = true) :
+    ∃ d m, unmarshal S id data m0 = .ok (d, m) ∧
+      (d.err = none ↔ (Spec.specUnmarshal S id data m0).isSome) ∧
+      (d.err = none → Spec.specUnmarshal S id data m0 = some m) :=
+  unmarshal_refines_spec_wt S hS id data m0 strict hm0
+
+/-! the protobuf rules as the specification states them, per kind -/
+
+/-- bool: any non-zero varint is true -/
+theorem C02_bool_nonzero (x : Nat) : Spec.scalarOfBits .bool x = if x = 0 then 0 else 1 := rfl
+
+/-- integer narrowing: a 32-bit kind keeps the low 32 bits of the varint -/
+theorem C02_narrowing (x : Nat) : Spec.scalarOfBits .int32 x = x % 2 ^ 32 ∧ Spec.scalarOfBits .uint32 x = x % 2 ^ 32 := ⟨rfl, rfl⟩
+
+/-- the readers' decode expressions (regenerated from decoder_types.go) ARE those rules -/
+theorem C02_readers_follow_the_rules (rep : Bool) (k : Scalar) (x : Nat) (hx : x < 2 ^ 64) (hx5 : k.wire = 5 → x < 2 ^ 32) :
+    decBits rep k x = Spec.scalarOfBits k x := dec_closed_form rep k x hx hx5
+
+/-- non-minimal varints decode to the same number: the consumer's value does not depend on the
+encoding's length (it is the base-128 value of the bytes) and a minimal encoding round-trips -/
+theorem C02_varint_value (v : Nat) (hv : v < 2 ^ 64) (rest : Bytes) :
+    (Wire.consumeVarint (Wire.varint v ++ rest)).1 = v := by rw [Wire.consumeVarint_varint v hv]
+
+end Pico.Props
